@@ -30,3 +30,9 @@ def run(ctx):
     r.floor("C01.generic-geometry.groups", 8)
     r.floor("C01.generic-shape", 8)
     run_kernels(ctx, ["K7", "K8", "K10", "K14", "K15", "K0"], "C01")
+    # what the product also rests on: the search window, group extraction, rotation, the topology handed to the search
+    run_kernels(ctx, ["K2", "K1", "K3"], "C01")
+    from ..rules_misc import k19_match
+    k19_match(ctx, "C01")
+    from ..rules_flow import k17_entry
+    k17_entry(ctx, "C01")
